@@ -5,7 +5,7 @@ from .defs import variant, enum, field, rs_str
 from .core import uncp, cp
 
 IDENTS13 = ["Red", "HTTPServer", "Ab12Cd", "V2", "Xml2Json", "A", "Ab", "DarkBlue", "X1", "IOError", "MyVariant", "TLS13", "Item9",
-            "Option2", "Utf8To16", "X1Y2", "A1B2C3", "Sha2With512", "SHOUT", "snake_id", "Foo_Bar", "Utf8Str", "B2B", "Ipv4Addr", "Sha256Sum", "Z", "AB", "ABc", "Hello2You", "U8", "None", "Some", "Ok", "Err", "Option"]
+            "Option2", "Utf8To16", "X1Y2", "A1B2C3", "Sha2With512", "SHOUT", "snake_id", "Foo_Bar", "Utf8Str", "B2B", "Ipv4Addr", "Sha256Sum", "Z", "AB", "ABc", "Hello2You", "U8", "None", "Some", "Ok", "Err", "Option", "type", "fn", "loop"]
 TRY_TYPES = ["u8", "i32", "bool", "String", "opt", "char", "i64", "u16"]
 
 
